@@ -5,7 +5,7 @@
    Every statement is for all programs, contexts, environments, values and fuel; OutOfFuel is not excluded
    anywhere: the equalities hold outcome by outcome. *)
 From Twig Require Import Base.Bytes Base.Utf8 Model.Ast Model.Value Model.ValueOps Model.EvalBuiltins Model.Ctx
-                         Model.TemplateSet Model.Eval Spec.ControlSpec Proofs.EvalProofs Gen.EvalShape.
+                         Model.TemplateSet Model.Eval Spec.ControlSpec Proofs.EvalProofs Proofs.EvalShapeProofs Gen.EvalShape.
 
 (* ---------------------------------------------------------------- refinement *)
 (* the renderer IS the control specification (with the engine's own truthiness function) on every node list *)
